@@ -947,7 +947,7 @@ def extra_phase(ctx, known, total):
 def stages(ctx):
     return [Stage("triples_cold", "hyp", strategy=triples(), examples=ctx.n(160, 4000)),
             Stage("histories_cold", "hyp", strategy=histories(ctx.n(10, 50)), examples=ctx.n(48, 1200)),
-            Stage("detect_cold", "hyp", strategy=detect_histories(), examples=ctx.n(160, 6000)),
+            Stage("detect_cold", "hyp", strategy=detect_histories(), examples=ctx.n(160, 2000)),
             Stage("regional_cold", "hyp", strategy=regional_histories(), examples=ctx.n(600, 12000)),
             Stage("triples_warm", "hyp", strategy=triples(), examples=ctx.n(1600, 40000), check=check_warm),
             Stage("histories_warm", "hyp", strategy=histories(ctx.n(14, 50)), examples=ctx.n(200, 8000), check=check_warm),
